@@ -5,6 +5,7 @@
 package reuse
 
 import (
+	"bytes"
 	"fmt"
 
 	"github.com/brocaar/lorawan"
@@ -19,6 +20,29 @@ type Receiver struct {
 	N    int
 }
 
+// CheckIsolation is called right after q was decoded from the private copy `in` of `wire`: the decoder
+// must not have written to its input, and the decoded value must not change when the caller goes on
+// to reuse the buffer (every byte of `in` is inverted here; a pointer or slice of q that still refers to
+// the buffer shows as a changed frame).
+func CheckIsolation(s *cases.Set, wire, in []byte, q *lorawan.PHYPayload) {
+	defer func() { _ = recover() }()
+	if !bytes.Equal(wire, in) {
+		s.Fail(cases.GoFail{Key: fmt.Sprintf("decoder-writes-input:%x", wire), What: fmt.Sprintf("PHYPayload.UnmarshalBinary changed its input buffer to %x", in),
+			Replay: map[string]interface{}{"bytes": fmt.Sprintf("%x", wire), "buffer_after": fmt.Sprintf("%x", in)}})
+		copy(in, wire)
+	}
+	n := framefmt.DecodedFOptsLen(wire)
+	before := framefmt.Phy(*q, n)
+	for i := range in {
+		in[i] ^= 0xff
+	}
+	after := framefmt.Phy(*q, n)
+	if before != after {
+		s.Fail(cases.GoFail{Key: fmt.Sprintf("decoded-frame-aliases-input:%x", wire), What: "the decoded frame changes when the caller overwrites the buffer it was decoded from",
+			Replay: map[string]interface{}{"bytes": fmt.Sprintf("%x", wire), "frame_before": clip(before), "frame_after_buffer_overwritten": clip(after)}})
+	}
+}
+
 // Fresh decodes b into a new PHYPayload and returns the outcome in the format the Corr modules use.
 func Fresh(b []byte) (q lorawan.PHYPayload, out string) {
 	defer func() {
@@ -26,7 +50,8 @@ func Fresh(b []byte) (q lorawan.PHYPayload, out string) {
 			out = cq.Panic
 		}
 	}()
-	if err := q.UnmarshalBinary(append([]byte{}, b...)); err != nil {
+	in := append([]byte{}, b...)
+	if err := q.UnmarshalBinary(in); err != nil {
 		return q, cq.Err
 	}
 	return q, cq.Ok(framefmt.Phy(q, framefmt.DecodedFOptsLen(b)))
@@ -37,6 +62,8 @@ func Fresh(b []byte) (q lorawan.PHYPayload, out string) {
 func (rc *Receiver) Decode(s *cases.Set, r *cq.RNG, b []byte, fresh string) {
 	rc.N++
 	got := cq.Err
+	cases.Begin(fmt.Sprintf("decode-into-used-receiver:%x", b), map[string]interface{}{"bytes": fmt.Sprintf("%x", b), "receiver_held_before": rc.prev})
+	defer cases.End()
 	func() {
 		defer func() {
 			if r := recover(); r != nil {
